@@ -404,8 +404,14 @@ def check(ctx):
         src = expr_str(strip(init["c"][1])) if init is not None and init["k"] == "BinaryOperator" else "?"
         kind = "count" if any(x["k"] == "CompoundAssignOperator" and expr_str(strip(x["c"][0])) == "size" for x in walk_nodes(lp)) else "copy"
         order.append((kind, src))
-    ctx.ob("C18.Z4o", "env_concat: order", "entries of the first block are counted and copied before those of the second",
-           order == [("count", "a"), ("count", "b"), ("copy", "a"), ("copy", "b")], {"loops": order})
+    if not loops:
+        # the counting and copying loops are not in env_concat itself (handed to helpers): this rule only knows the in-place form;
+        # it cannot pair the helpers' size with the helpers' writes, so it gives no verdict rather than an alarm
+        ctx.floor_failures.append("C18.Z4: env_concat contains no counting / copying loops of its own (moved into helpers?); the environment "
+                                  "block size cannot be paired with its writer, no verdict")
+    else:
+        ctx.ob("C18.Z4o", "env_concat: order", "entries of the first block are counted and copied before those of the second",
+               order == [("count", "a"), ("count", "b"), ("copy", "a"), ("copy", "b")], {"loops": order})
     cal = [x for x in Fc.calls("calloc")]
     ctx.ob("C18.Z4a", "env_concat: allocation", "the block is allocated with the counted number of wide characters",
            len(cal) == 1 and expr_str(strip(cal[0]["c"][1])) == "size" and "wchar_t" in expr_str(cal[0]["c"][2]), None)
